@@ -256,10 +256,16 @@ func (ex *Exec) assignStmt(st *State, s *ast.AssignStmt, k func(*State)) {
 						v := vals[i]
 						v.Go = substType(obj.Type(), st.frame.tsub)
 						ex.declare(st, obj, v)
+						ex.afterAssign(st, id)
 						rec(st, i+1)
 						return
 					}
 				}
+				ex.assign(st, lhs, vals[i], func(st *State) {
+					ex.afterAssign(st, id)
+					rec(st, i+1)
+				})
+				return
 			}
 			ex.assign(st, lhs, vals[i], func(st *State) { rec(st, i+1) })
 		}
@@ -722,8 +728,23 @@ func (ex *Exec) storeField(st *State, base Val, f *types.Var, v Val) {
 	n, stT, _ := structOf(base.Go)
 	ft := ex.fieldType(base.Go, f)
 	fs := ex.w.sortOf(ft)
-	if _, ok := types.Unalias(ft).Underlying().(*types.Array); ok {
-		panic(unsupported("assignment of a whole array field"))
+	if arr, ok := types.Unalias(ft).Underlying().(*types.Array); ok {
+		// whole-array store into the object's own backing array
+		dst := ex.arrayFieldSlice(base.T, n, stT, f.Name(), arr, ft)
+		es := dst.S.Elem
+		mk := ex.memKey(es)
+		ms := ex.w.memSort(es)
+		m := ex.heapGet(st, mk, ms, arr.Elem())
+		darr, _ := elemAddr(dst.T, "0")
+		if v.T == ex.w.zero(v.S) {
+			ex.heapSet(st, mk, ms, sStore(m, darr, ex.zeroRow(es)))
+			return
+		}
+		row := ex.w.freshConst("arrcopy", ex.w.seqSort(es))
+		sarr, s0 := elemAddr(v.T, "0")
+		st.assume(fmt.Sprintf("(forall ((k Int)) (! (=> (and (<= 0 k) (< k %d)) (= (select %s k) (select (select %s %s) (+ %s k)))) :pattern ((select %s k))))", arr.Len(), row, m, sarr, s0, row))
+		ex.heapSet(st, mk, ms, sStore(m, darr, row))
+		return
 	}
 	key := ex.fieldKey(n, stT, f.Name())
 	as := ex.fieldArraySort(fs)
@@ -736,9 +757,17 @@ func (ex *Exec) storeStruct(st *State, ref string, v Val) {
 	if stT == nil {
 		panic(unsupported("store through pointer to non-struct"))
 	}
+	// a constructor application gives the field values directly
+	var direct []string
+	if parts := sexprArgs(v.T); len(parts) == stT.NumFields()+1 && parts[0] == v.S.ctor() {
+		direct = parts[1:]
+	}
 	for i := 0; i < stT.NumFields(); i++ {
 		f := stT.Field(i)
 		fv := Val{T: sApp(v.S.Fields[i].Sel, v.T), S: v.S.Fields[i].S, Go: v.S.Fields[i].Go}
+		if direct != nil {
+			fv.T = direct[i]
+		}
 		ex.storeField(st, Val{T: ref, S: sRef, Go: types.NewPointer(namedOr(n, stT))}, f, fv)
 	}
 }
@@ -761,11 +790,27 @@ func (ex *Exec) loadStruct(st *State, ref string, ty types.Type) Val {
 	return Val{T: ex.w.mkStruct(s, vs), S: s, Go: namedOr(n, stT)}
 }
 
+// elemAddr returns the backing array and the raw index of element idx of a slice; a slice that
+// is syntactically (mkslice A 0 ...) (array-typed fields) indexes its array directly, which keeps
+// quantifier patterns free of arithmetic.
+func elemAddr(slT, idx string) (string, string) {
+	if strings.HasPrefix(slT, "(mkslice ") {
+		if parts := sexprArgs(slT); len(parts) == 5 {
+			if parts[2] == "0" {
+				return parts[1], idx
+			}
+			return parts[1], fmt.Sprintf("(+ %s %s)", parts[2], idx)
+		}
+	}
+	return fmt.Sprintf("(s_arr %s)", slT), fmt.Sprintf("(+ (s_off %s) %s)", slT, idx)
+}
+
 func (ex *Exec) loadElem(st *State, sl Val, idx string) Val {
 	ex.noteIx(idx)
 	et := elemGoType(sl.Go)
 	m := ex.heapGet(st, ex.memKey(sl.S.Elem), ex.w.memSort(sl.S.Elem), et)
-	v := Val{T: sSel(sSel(m, fmt.Sprintf("(s_arr %s)", sl.T)), fmt.Sprintf("(+ (s_off %s) %s)", sl.T, idx)), S: sl.S.Elem, Go: et}
+	arr, raw := elemAddr(sl.T, idx)
+	v := Val{T: sSel(sSel(m, arr), raw), S: sl.S.Elem, Go: et}
 	return v
 }
 
@@ -791,8 +836,8 @@ func (ex *Exec) storeElem(st *State, sl Val, idx string, v Val) {
 	key := ex.memKey(sl.S.Elem)
 	ms := ex.w.memSort(sl.S.Elem)
 	m := ex.heapGet(st, key, ms)
-	arr := fmt.Sprintf("(s_arr %s)", sl.T)
-	ex.heapSet(st, key, ms, sStore(m, arr, sStore(sSel(m, arr), fmt.Sprintf("(+ (s_off %s) %s)", sl.T, idx), v.T)))
+	arr, raw := elemAddr(sl.T, idx)
+	ex.heapSet(st, key, ms, sStore(m, arr, sStore(sSel(m, arr), raw, v.T)))
 }
 
 func (ex *Exec) nilCheck(st *State, p Val, pos token.Pos, k func(*State)) {
@@ -954,8 +999,8 @@ func (ex *Exec) loop(st *State, lp *loopParts, k func(*State)) {
 	fr := st.frame
 	ord := ex.loopOrdinal(fr, lp.stmt)
 	var spec *LoopSpec
-	if fr.fi != nil && fr.fi == ex.top && fr.fi.Spec != nil && fr.closure == nil {
-		spec = fr.fi.Spec.Loops[ord]
+	if fr.fi != nil && fr.fi == ex.top && fr.fi.Spec != nil {
+		spec = fr.fi.Spec.Loops[ord] // also loops inside function literals of the function itself
 	} else if fr.fi != nil && fr.closure == nil && ex.top.Spec != nil && ex.top.Spec.InLoops != nil {
 		spec = ex.top.Spec.InLoops[fmt.Sprintf("%s.%d", fr.fi.Decl.Name.Name, ord)]
 	}
@@ -1040,6 +1085,19 @@ func (ex *Exec) loop(st *State, lp *loopParts, k func(*State)) {
 			}
 		}
 	}
+	// ghost locals assigned by anchored ghost code may change inside the loop as well
+	if fr.fi == ex.top && ex.top.Spec != nil {
+		for _, an := range ex.top.Spec.Anchors {
+			if an.Kind != "ghost" || an.Ghost == nil {
+				continue
+			}
+			if id, ok := an.Ghost.LHS.(*SIdent); ok {
+				if cur, has := st.frame.ghost[id.Name]; has && !strings.HasPrefix(cur.T, "g_loop_ghost_") {
+					st.frame.ghost[id.Name] = Val{T: ex.w.freshConst("loop_ghost_"+id.Name, cur.S), S: cur.S, Go: cur.Go}
+				}
+			}
+		}
+	}
 	// the typing invariants of havocked variables
 	for obj := range ws.vars {
 		if v, _, ok := st.frame.lookupVar(obj); ok {
@@ -1110,4 +1168,33 @@ func (ex *Exec) loop(st *State, lp *loopParts, k func(*State)) {
 	default:
 		runBody(st)
 	}
+}
+
+// afterAssign runs `after assign NAME[k]:` anchored clauses (k-th assignment to NAME in the source
+// of the function under verification).
+func (ex *Exec) afterAssign(st *State, id *ast.Ident) {
+	if st.frame.fi != ex.top || st.frame.closure != nil || ex.top.Spec == nil || len(ex.top.Spec.Anchors) == 0 {
+		return
+	}
+	has := false
+	for _, an := range ex.top.Spec.Anchors {
+		if an.Callee == "="+id.Name {
+			has = true
+		}
+	}
+	if !has {
+		return
+	}
+	ord := 0
+	ast.Inspect(ex.top.Decl.Body, func(n ast.Node) bool {
+		if as, ok := n.(*ast.AssignStmt); ok {
+			for _, l := range as.Lhs {
+				if lid, ok := l.(*ast.Ident); ok && lid.Name == id.Name && lid.Pos() < id.Pos() {
+					ord++
+				}
+			}
+		}
+		return true
+	})
+	ex.runAnchors(st, "after", "="+id.Name, ord)
 }
